@@ -228,15 +228,35 @@ Set Printing Width 1000000. Set Printing Depth 1000000.
 '''
 
 
+def _split_defs(terms):
+    """A term may be (text, {name: definition sentence}) ; returns (texts, merged defs in first-use order)."""
+    texts, defs = [], {}
+    for t in terms:
+        if isinstance(t, tuple):
+            texts.append(t[0])
+            for k, v in t[1].items():
+                defs.setdefault(k, v)
+        else:
+            texts.append(t)
+    return texts, defs
+
+
+_shard_counter = [0]
+
+
 def eval_shards(corr_module, case_type, terms, workdir, run_fn='run', extra_imports=''):
     """terms: list of Gallina terms of type case_type.  Returns list of verdict codes (one per case)."""
     shards = [terms[i:i + SHARD] for i in range(0, len(terms), SHARD)]
     paths = []
     for k, sh_terms in enumerate(shards):
-        p = os.path.join(workdir, 'cases_%d.v' % k)
+        _shard_counter[0] += 1
+        p = os.path.join(workdir, 'cases_%d.v' % _shard_counter[0])
+        sh_terms, defs = _split_defs(sh_terms)
         with open(p, 'w') as f:
             f.write(HEADER % {'corr': corr_module})
             f.write(extra_imports)
+            for d in defs.values():
+                f.write(d + '\n')
             f.write('Definition cases : list (%s) := [\n%s\n].\n' % (case_type, ';\n'.join(sh_terms)))
             f.write('Eval vm_compute in (%s.%s cases).\n' % (corr_module, run_fn))
         paths.append(p)
@@ -259,10 +279,13 @@ def eval_shards(corr_module, case_type, terms, workdir, run_fn='run', extra_impo
 
 def eval_show(corr_module, case_type, term, workdir, show_fn='show', extra_imports=''):
     """Second coqc call for a reported index: the model's own observation, printed by Coq, stored verbatim."""
-    p = os.path.join(workdir, 'show_%s.v' % hashlib.md5(term.encode()).hexdigest()[:10])
+    p = os.path.join(workdir, 'show_%s.v' % hashlib.md5(repr(term).encode()).hexdigest()[:10])
+    (term,), defs = _split_defs([term])
     with open(p, 'w') as f:
         f.write(HEADER % {'corr': corr_module})
         f.write(extra_imports)
+        for d in defs.values():
+            f.write(d + '\n')
         f.write('Definition the_case : %s := %s.\n' % (case_type, term))
         f.write('Eval vm_compute in (%s.%s the_case).\n' % (corr_module, show_fn))
     rc, out = coqc(p)
